@@ -308,6 +308,11 @@ func (its *PushPullHandler) processSubscribeOrCreate(code pushPullCase) errors.O
 			return its.createDatatype()
 		case caseAllMatchedNotSubscribed:
 			return its.subscribeDatatype()
+		case caseAllMatchedSubscribed:
+			// a repeated request of a client that was subscribed to another client's datatype meanwhile
+			if its.datatypeDoc.DUID != its.DUID {
+				return its.subscribeDatatype()
+			}
 		}
 	} else if its.gotOption.HasSubscribeBit() {
 		switch code {
@@ -315,8 +320,8 @@ func (its *PushPullHandler) processSubscribeOrCreate(code pushPullCase) errors.O
 			return errors.PushPullNoDatatypeToSubscribe.New(its.ctx.L(), its.Key)
 		case caseUsedDUID:
 		case caseMatchKeyNotType:
-		case caseAllMatchedSubscribed:
-		case caseAllMatchedNotSubscribed:
+		case caseAllMatchedSubscribed, caseAllMatchedNotSubscribed:
+			// subscribing is repeatable: a request that arrives again is answered like the first time
 			return its.subscribeDatatype()
 		case caseAllMatchedNotVisible:
 		}
